@@ -119,18 +119,43 @@ def onJoined (w : World) (toks : List String) : World :=
 
 /-! ## snapshots -/
 
-structure SnapWorld where
-  /-- peer key ↦ (values, heads, index) at the time of the last successful save -/
-  saved : List (Nat × List Nat × List Nat × String) := []
-  loaded : List Nat := []        -- peers whose next obs must equal the saved state
+structure SnapState where
+  vals  : List Nat
+  heads : List Nat
+  idx   : String
 deriving Inhabited
+
+structure SnapWorld where
+  /-- peer key ↦ the states a successfully saved snapshot may hold: the state at the time of the save,
+  or — when writes landed while it was being written — any state the store went through meanwhile -/
+  saved : List (Nat × List SnapState) := []
+  loaded : List Nat := []        -- peers whose next obs must equal (one of) the saved state(s)
+  /-- a racing save is in progress on this store key: the states seen so far -/
+  racing : Option (Nat × List SnapState) := none
+deriving Inhabited
+
+def snapStateOf (w : World) (p : Nat) : SnapState :=
+  let s := w.store p
+  { vals := (values s.log).map (·.hash), heads := (sortedHeads s.log).map (·.hash), idx := showKV s.idx }
+
+/-- the model store of a fresh instance that loaded a snapshot holding `vals` -/
+def snapStore (w : World) (old : Store) (vals : List Nat) : Store :=
+  let es := w.entriesOf vals
+  let L := logOfEntries (w.curDb + 1) es
+  let emptyIdx : KV := []
+  let newIdx : KV := updateIndex old.kind emptyIdx L
+  let n : Int := es.length
+  let base : Store := old.reopened
+  { base with log := bumpClock L, idx := newIdx, status := { progress := n, max := n } }
 
 def onSnapSaved (w : World) (sw : SnapWorld) (toks : List String) : World × SnapWorld :=
   let p := peerNum (toks.getD 1 "")
+  let cands : List SnapState := match sw.racing with
+    | some (k, l) => if k == w.key p then l else [snapStateOf w p]
+    | none => [snapStateOf w p]
+  let sw := { sw with racing := none }
   match toks.getD 2 "" with
-  | "ok" =>
-    let s := w.store p
-    (w, { sw with saved := (w.key p, (values s.log).map (·.hash), (sortedHeads s.log).map (·.hash), showKV s.idx) :: sw.saved.filter (·.1 != w.key p) })
+  | "ok" => (w, { sw with saved := (w.key p, cands) :: sw.saved.filter (·.1 != w.key p) })
   | "err" => (w, sw)
   | _ => (w.fail "C13" "save" s!"peer {p}: SaveSnapshot panicked", sw)
 
@@ -144,33 +169,48 @@ def onSnapLoaded (w : World) (sw : SnapWorld) (toks : List String) : World × Sn
     -- no snapshot was ever saved: loading reports "not found"
     let w := w.setStore p old.reopened
     (if res == "ok" then w.fail "corr" "snapload" s!"peer {p}: LoadFromSnapshot succeeded although no snapshot was saved" else w, sw)
-  | some (_, vals, _, _) =>
-    let es := w.entriesOf vals
-    let L := logOfEntries (w.curDb + 1) es
-    let emptyIdx : KV := []
-    let newIdx : KV := updateIndex old.kind emptyIdx L
-    let n : Int := es.length
-    let base : Store := old.reopened
-    let s : Store := { base with log := bumpClock L, idx := newIdx, status := { progress := n, max := n } }
-    let w := { w.setStore p s with resync := w.key p :: w.resync }
+  | some (_, cands) =>
+    let vals := (cands.headD default).vals
+    let w := { w.setStore p (snapStore w old vals) with resync := w.key p :: w.resync }
     let w := if res != "ok" then w.fail "C13" "load" s!"peer {p}: a snapshot was saved successfully but loading it reports {res}" else w
     let w := if arg toks "quiesce" != "true" then w.fail "C13" "load" s!"peer {p}: not quiescent after loading the snapshot" else w
     (w, { sw with loaded := w.key p :: sw.loaded })
 
-/-- after a snapshot load the observation must be exactly the saved state -/
+/-- before the observation that follows a snapshot load is compared with the model: when the snapshot
+was written while the log grew, the model continues from whichever of the candidate states the
+implementation reloaded -/
+def adoptSnapCandidate (w : World) (sw : SnapWorld) (toks : List String) : World :=
+  let p := peerNum (toks.getD 1 "")
+  if !sw.loaded.contains (w.key p) then w else
+  match sw.saved.find? (·.1 == w.key p) with
+  | some (_, cands) =>
+    let iv := namesToNums (arg toks "values")
+    if cands.length > 1 then
+      match cands.find? (fun c => c.vals == iv) with
+      | some c => w.setStore p (snapStore w (w.store p) c.vals)
+      | none => w
+    else w
+  | none => w
+
+/-- after a snapshot load the observation must be exactly (one of) the saved state(s) -/
 def checkSnapObs (w : World) (sw : SnapWorld) (toks : List String) : World × SnapWorld :=
   let p := peerNum (toks.getD 1 "")
   if !sw.loaded.contains (w.key p) then (w, sw) else
   let sw' := { sw with loaded := sw.loaded.filter (· != w.key p) }
   match sw.saved.find? (·.1 == w.key p) with
   | none => (w, sw')
-  | some (_, vals, heads, idx) =>
+  | some (_, cands) =>
     let iv := namesToNums (arg toks "values")
     let ih := namesToNums (arg toks "heads")
-    let w := if iv != vals || ih != heads then
-        w.fail "C13" "reconstruct" s!"peer {p}: snapshot of values {showNums vals} heads {showNums heads} reloads as values {showNums iv} heads {showNums ih}" else w
-    let w := if w.dbKind != Kind.log && showKV (parseKVs (arg toks "idx")) != idx then
-        w.fail "C13" "reconstruct" s!"peer {p}: index after reloading the snapshot differs from the saved one" else w
+    let idx := showKV (parseKVs (arg toks "idx"))
+    let okFor (c : SnapState) : Bool := iv == c.vals && ih == c.heads && (w.dbKind == Kind.log || idx == c.idx)
+    let w := if cands.any okFor then w else
+      match cands with
+      | [c] =>
+        if iv != c.vals || ih != c.heads then
+          w.fail "C13" "reconstruct" s!"peer {p}: snapshot of values {showNums c.vals} heads {showNums c.heads} reloads as values {showNums iv} heads {showNums ih}"
+        else w.fail "C13" "reconstruct" s!"peer {p}: index after reloading the snapshot differs from the saved one"
+      | _ => w.fail "C13" "reconstruct" s!"peer {p}: the snapshot written while the log grew reloads as values {showNums iv} heads {showNums ih}, which is none of the {cands.length} states the store went through during the save"
     (w, sw')
 
 /-! ## events -/
@@ -277,6 +317,9 @@ def Full.step (f : Full) (line : String) : Full :=
   | "event" => let (w, ew) := onEvent (bump f.w) f.ew toks; { f with w := w, ew := ew }
   | "op" =>
     let f := if toks.getD 1 "" == "evwatch" then { f with watched := peerNum (toks.getD 2 "") :: f.watched } else f
+    let f := if toks.getD 1 "" == "snapsaverace" then
+        let p := peerNum (toks.getD 2 "")
+        { f with sw := { f.sw with racing := some (f.w.key p, [snapStateOf f.w p]) } } else f
     { f with w := f.w.stepAll line }
   | "end" =>
     -- exactly one write event per successful local write on every watched peer
@@ -293,9 +336,16 @@ def Full.step (f : Full) (line : String) : Full :=
   | "parsed" => let (w, aw) := onParsed (bump f.w) f.aw toks; { f with w := w, aw := aw }
   | "joined" => { f with w := onJoined (bump f.w) toks }
   | "snapsaved" => let (w, sw) := onSnapSaved (bump f.w) f.sw toks; { f with w := w, sw := sw }
+  | "ack" =>
+    let w := f.w.stepAll line
+    -- a write that landed while a snapshot is being written: one more state the snapshot may hold
+    let sw := match f.sw.racing with
+      | some (k, l) => let p := peerNum (toks.getD 1 ""); if w.key p == k then { f.sw with racing := some (k, l ++ [snapStateOf w p]) } else f.sw
+      | none => f.sw
+    { f with w := w, sw := sw }
   | "snaploaded" => let (w, sw) := onSnapLoaded (bump f.w) f.sw toks; { f with w := w, sw := sw }
   | "obs" =>
-    let w := f.w.stepAll line
+    let w := (adoptSnapCandidate f.w f.sw toks).stepAll line
     let (w, sw) := checkSnapObs w f.sw toks
     { f with w := w, sw := sw }
   | _ => { f with w := f.w.stepAll line }
